@@ -55,6 +55,21 @@ BuildAppend(x, ord) == /\ "BuildAppend" \in Ops /\ Room /\ ~Present(x)
 CopyTo(x, y) == /\ "Copy" \in Ops /\ Room /\ Present(x) /\ ~Present(y)
                 /\ obj' = [obj EXCEPT ![y] = obj[x]]
                 /\ Step([op |-> "Copy", x |-> x, y |-> y, after |-> Snap(obj[x])])
+(* a second object made from the blocks of x through the constructor: in another insertion order (pi), and optionally
+   with the data of two same-shaped blocks exchanged between their types (i # j) -- equal to x exactly when i = j *)
+SwapBlks(m, i, j) == [m EXCEPT !.blks = [n \in 1..Len(m.order) |-> IF n = i THEN m.blks[j] ELSE IF n = j THEN m.blks[i] ELSE m.blks[n]]]
+PermuteMI(m, pi)  == [m EXCEPT !.order = [n \in 1..Len(m.order) |-> m.order[pi[n]]],
+                               !.blks  = [n \in 1..Len(m.order) |-> m.blks[pi[n]]]]
+Rebuild(x, y, pi, i, j) ==
+  /\ "Rebuild" \in Ops /\ Room /\ Present(x) /\ ~Present(y)
+  /\ i <= j /\ j <= Len(obj[x].order)
+  /\ (i # j => obj[x].order[i][1] = obj[x].order[j][1] /\ obj[x].blks[i].lead = obj[x].blks[j].lead)
+  /\ LET sw == SwapBlks(obj[x], i, j)
+         r  == PermuteMI(sw, pi) IN
+     /\ obj' = [obj EXCEPT ![y] = r]
+     /\ Step([op |-> "Rebuild", x |-> x, y |-> y,
+              src |-> [n \in 1..Len(r.order) |-> LET q == pi[n] IN obj[x].order[IF q = i THEN j ELSE IF q = j THEN i ELSE q]],
+              swapped |-> (i # j), after |-> Snap(r)])
 SameFirst(m) == \A i \in 1..Len(m.order) : Len(m.blks[i].lead) >= 1 /\ m.blks[i].lead[1] = m.blks[1].lead[1]
 RoundTrip(x, how) == /\ "RoundTrip" \in Ops /\ Room /\ Present(x)
                      /\ (how = "vmap" => SameFirst(obj[x]))
@@ -184,6 +199,7 @@ Next ==
   \/ \E x \in Names, c0 \in 0..7, n \in 1..3, T \in {1, 2} : ComponentOp(x, c0, n, T)
   \/ \E x \in Names, ord \in Orders : New(x, ord) \/ BuildAppend(x, ord)
   \/ \E x \in Names, y \in Names : CopyTo(x, y) \/ EqTest(x, y) \/ BinOp("Add", x, y) \/ BinOp("Sub", x, y)
+  \/ \E x \in Names, y \in Names : \E pi \in Perms(Len(obj[x].order)), i \in 1..3, j \in 1..3 : Rebuild(x, y, pi, i, j)
   \/ \E x \in Names, how \in {"jit", "vmap", "flatten"} : RoundTrip(x, how)
   \/ \E x \in Names : ViaVector(x) \/ ScalarRT(x) \/ ToScalarOp(x) \/ ImagesRT(x) \/ NormOp(x)
   \/ \E x \in Names, y \in Names, ax \in 1..3 : Concat(x, y, ax) \/ Split(x, y, ax)
